@@ -18,6 +18,12 @@ package main
 //   ["rb", name, must]                    h.RollbackTo("m<name>")
 //   ["dv", kind, arg, [body…], must]      h2 := <derive kind>(h); …body… on h2   (kind = "<class>:<Go derivation>", see c04Derive;
 //                                         h itself is not touched; classes: keep prep newdb skiptx disnested chain where initialized debug)
+//   ["fh", kind, tag, [body…], must]      h2 := a handle derived from h that ALREADY CARRIES AN ERROR; …body… on h2. kind (see runFh):
+//                                         "adderr:Session" / "adderr:WithContext" = h.Session(&Session{}) / h.WithContext(ctx), then
+//                                         h2.AddError(userErr(tag)); "firstmiss:First" = the handle RETURNED by h.First(&item, -1)
+//                                         (gorm.ErrRecordNotFound, or the injected fault of its query). Everything issued through such
+//                                         a handle is refused by gorm — by the caller's doing, not a matter of this property; what the
+//                                         property still demands: nothing becomes durable, errors come back unchanged, NO CONNECTION LEAKS.
 // must=true : an error of the child makes the enclosing function return that error at once; a panic propagates.
 // must=false: the enclosing function ignores the child's error and recovers the child's panic, then continues.
 
@@ -207,7 +213,7 @@ func (n *c04Node) enc() []interface{} {
 		return []interface{}{n.K, c04EncBody(n.Body), n.Out, n.ID, n.Must}
 	case "man":
 		return []interface{}{n.K, c04EncBody(n.Body), n.Out, n.Must}
-	case "dv":
+	case "dv", "fh":
 		return []interface{}{n.K, n.Kind, n.ID, c04EncBody(n.Body), n.Must}
 	}
 	panic("bad node " + n.K)
@@ -234,7 +240,7 @@ func c04Dec(raw []interface{}) (*c04Node, error) {
 		n.ID, n.Must = num(1), bl(2)
 	case "q":
 		n.Must = bl(1)
-	case "dv":
+	case "dv", "fh":
 		if len(raw) < 5 {
 			return nil, errors.New("short dv node")
 		}
@@ -538,6 +544,12 @@ type c04Exec struct {
 	ended        string               // the outermost transaction being executed was ended underneath: "" | "rollback" | "commit"
 	endKinds     map[string]int
 	updSeq       int64
+
+	poisoned  bool           // the handle lineage being used carries an error the CALLER put there ("fh" node): refusals are legitimate
+	stale18   bool           // a stale use OUTSIDE such a lineage: the handle's sticky error came from gorm itself (pattern of finding F18)
+	f27       bool           // pattern of finding F27: Transaction / Begin was invoked outside a transaction on a handle that carries an error
+	leaked    bool           // verdict "leak: …" was given
+	failKinds map[string]int // "fh" nodes executed, by kind and site
 }
 
 func c04Tok(ev *Event) string {
@@ -626,6 +638,9 @@ func (x *c04Exec) payload(tag int64) *c04Payload {
 func (x *c04Exec) use(h *gorm.DB) {
 	if h.Error != nil {
 		x.stale = true
+		if !x.poisoned {
+			x.stale18 = true
+		}
 	}
 }
 
@@ -664,6 +679,8 @@ func (x *c04Exec) child(h *gorm.DB, inTx bool, path string, n *c04Node) error {
 	switch n.K {
 	case "dv":
 		return x.runDv(h, inTx, path, n)
+	case "fh":
+		return x.runFh(h, inTx, path, n)
 	case "w", "d":
 		x.use(h)
 		var err error
@@ -772,6 +789,9 @@ func (x *c04Exec) verdict(format string, a ...interface{}) {
 // "leaves the enclosing transaction usable": an operation none of whose own driver calls was failed must succeed
 // (generators never produce key conflicts; a RollbackTo of a name that is not live may fail legitimately)
 func (x *c04Exec) expectNilUnlessFaulted(path, kind string, err error, f0 int) {
+	if x.poisoned {
+		return // the caller put an error into this handle lineage: gorm refuses every operation through it, legitimately
+	}
 	if x.ended != "" && x.opInTx {
 		return // the transaction was ended underneath the function: its handles legitimately answer sql.ErrTxDone / a context error
 	}
@@ -808,6 +828,10 @@ func (x *c04Exec) isInjected(err error) bool {
 
 func (x *c04Exec) runBlk(h *gorm.DB, inTx bool, path string, n *c04Node) (ret error) {
 	x.use(h)
+	if !inTx && h.Error != nil {
+		x.f27 = true
+	}
+	poisoned := x.poisoned
 	f0 := x.nFaulted
 	obs := &c04BlockObs{Path: path}
 	x.blocks = append(x.blocks, obs)
@@ -828,7 +852,7 @@ func (x *c04Exec) runBlk(h *gorm.DB, inTx bool, path string, n *c04Node) (ret er
 			x.txOrd = 0
 		}
 		x.opInTx = inTx
-		x.judgeBlk(path, nested, dis, obs, mark, fnEndTrace, f0)
+		x.judgeBlk(path, nested, dis, poisoned, obs, mark, fnEndTrace, f0)
 		if !nested {
 			x.ended = ""
 		}
@@ -871,6 +895,9 @@ func (x *c04Exec) runBlk(h *gorm.DB, inTx bool, path string, n *c04Node) (ret er
 		}
 		if tx.Error != nil {
 			x.stale = true // returning nil on a handle whose Error is set: gorm will Commit on it
+			if !x.poisoned {
+				x.stale18 = true
+			}
 		}
 		obs.FnRet = "nil"
 		return nil
@@ -887,12 +914,14 @@ func (x *c04Exec) runBlk(h *gorm.DB, inTx bool, path string, n *c04Node) (ret er
 //   function panicked      → nothing of the block kept, Transaction panics with the SAME payload
 //   function not run       → BEGIN / SAVEPOINT failed: Transaction returns an error, nothing changes
 // "nothing kept" for a nested block under DisableNestedTransaction means: it undoes nothing by itself.
-func (x *c04Exec) judgeBlk(path string, nested, dis bool, obs *c04BlockObs, mark, fnEnd, f0 int) {
+func (x *c04Exec) judgeBlk(path string, nested, dis, poisoned bool, obs *c04BlockObs, mark, fnEnd, f0 int) {
 	if !obs.FnRan {
 		if obs.Panicked {
 			x.verdict("%s: Transaction panicked (%v) before running the function", path, obs.Payload)
 		} else if obs.Ret == nil {
 			x.verdict("%s: Transaction returned nil without running the function", path)
+		} else if poisoned {
+			// invoked on a handle that carries the caller's own error: refusing to start is legitimate (the error comes back)
 		} else if x.nFaulted == f0 && !(nested && x.ended != "") {
 			x.verdict("%s: Transaction refused to start (%q) although no driver call failed (handle unusable)", path, obs.Ret.Error())
 		}
@@ -955,10 +984,13 @@ func (x *c04Exec) judgeBlk(path string, nested, dis bool, obs *c04BlockObs, mark
 //   return tx.Commit().Error   |   return tx.Rollback().Error
 func (x *c04Exec) runMan(h *gorm.DB, inTx bool, path string, n *c04Node) error {
 	x.use(h)
+	if !inTx && h.Error != nil {
+		x.f27 = true
+	}
 	f0 := x.nFaulted
 	tx := h.Begin()
 	if tx.Error != nil {
-		if !inTx && x.nFaulted == f0 {
+		if !inTx && x.nFaulted == f0 && !x.poisoned {
 			x.verdict("%s: Begin failed (%q) although no driver call failed", path, tx.Error.Error())
 		}
 		return tx.Error
@@ -988,7 +1020,12 @@ func (x *c04Exec) runMan(h *gorm.DB, inTx bool, path string, n *c04Node) error {
 		x.ref.end(false)
 		return err
 	}
-	x.use(tx)
+	if tx.Error != nil {
+		x.stale = true
+		if !x.poisoned {
+			x.stale18 = true
+		}
+	}
 	if n.Out == 0 {
 		p := len(x.trace)
 		err := tx.Commit().Error
@@ -1147,6 +1184,14 @@ func (x *c04Exec) errAtoms(err error) []interface{} {
 		}
 	}
 	pieces := strings.Split(err.Error(), "; ")
+	// a user error that went through AddError ("fh" nodes) comes back JOINED to others ("%v; %w"): its identity is its text
+	for i, piece := range pieces {
+		for t, u := range x.userVals {
+			if i < len(out) && u.Error() == piece && u != error(sql.ErrTxDone) && u != error(gorm.ErrInvalidTransaction) {
+				out[i] = fmt.Sprintf("user%d", t)
+			}
+		}
+	}
 	switch ek := x.ek % c04NCommitErrKinds; {
 	case ek == 1:
 		return out // the injected value IS sql.ErrTxDone: indistinguishable from a genuine one, both read "txDone" (see c04ModelRes)
@@ -1187,6 +1232,8 @@ func c04ErrAtoms(err error) []interface{} {
 			out = append(out, "noSavepoint")
 		case strings.Contains(piece, "UNIQUE constraint failed"):
 			out = append(out, "conflict")
+		case piece == gorm.ErrRecordNotFound.Error():
+			out = append(out, "notFound")
 		default:
 			out = append(out, piece) // inj<k> / user<tag> / anything unexpected verbatim
 		}
@@ -1199,7 +1246,7 @@ func c04Run(w *c04World, initial []int64, body []*c04Node, mask []int, allowRb b
 	w.reset(initial)
 	x := &c04Exec{w: w, mask: map[int]bool{}, allowRb: allowRb, users: map[int64]*c04UserErr{}, payloads: map[int64]*c04Payload{},
 		pk: pk, ek: ek, payloadVals: map[int64]interface{}{}, userVals: map[int64]error{}, payloadKinds: map[string]int{},
-		userKinds: map[string]int{}, endKinds: map[string]int{}, quirkB: map[int]bool{}}
+		userKinds: map[string]int{}, endKinds: map[string]int{}, quirkB: map[int]bool{}, failKinds: map[string]int{}}
 	x.ref.committed = map[int64]bool{}
 	for _, id := range initial {
 		x.ref.committed[id] = true
@@ -1263,6 +1310,7 @@ func c04Run(w *c04World, initial []int64, body []*c04Node, mask []int, allowRb b
 		x.verdict("final table %v differs from the property's reference %v", o.Store, want)
 	}
 	if o.Open != 0 || o.InUse != 0 {
+		x.leaked = true
 		x.verdict("leak: %d driver transaction(s) open, %d connection(s) in use after the program", o.Open, o.InUse)
 	}
 	return o
@@ -1401,11 +1449,46 @@ func (x *c04Exec) runEnd(h *gorm.DB, inTx bool, path string, n *c04Node) error {
 	if was == "" {
 		x.ref.end(false)
 		x.ended = "rollback"
-		if err != nil {
+		if err != nil && !x.poisoned {
 			x.verdict("%s: Rollback() inside the function returned %q", path, err.Error())
 		}
 	}
 	return err
+}
+
+// c04FailKinds: the ways user code comes to hold a handle that already carries an error (class = Model/Tx.lean `FailSrc`)
+var c04FailKinds = []string{"adderr:Session", "adderr:WithContext", "firstmiss:First"}
+
+// runFh: user code goes on working through a handle that ALREADY CARRIES AN ERROR — its own AddError on a Session-derived
+// handle, or the handle a failed finisher returned (`r := h.First(&item, -1); r.Transaction(…)`). gorm copies the error into
+// everything derived from it (Session, getInstance, Begin), so every operation is refused: that is the caller's doing. The
+// PROPERTY still holds for such programs: nothing becomes durable, the error comes back, and no connection is kept.
+func (x *c04Exec) runFh(h *gorm.DB, inTx bool, path string, n *c04Node) error {
+	x.use(h)
+	savedP, savedReuse := x.poisoned, x.reuse
+	defer func() { x.poisoned, x.reuse = savedP, savedReuse }()
+	x.failKinds[n.Kind+map[bool]string{true: "/inside-tx", false: "/top-level"}[inTx]]++
+	var h2 *gorm.DB
+	switch n.Kind {
+	case "adderr:Session":
+		h2 = h.Session(&gorm.Session{})
+		_ = h2.AddError(x.userErrVal(n.ID))
+	case "adderr:WithContext":
+		h2 = h.WithContext(context.WithValue(context.Background(), c04CtxKey{}, n.Kind))
+		_ = h2.AddError(x.userErrVal(n.ID))
+	case "firstmiss:First":
+		var it TxItem
+		h2 = h.First(&it, -1) // no such row: ErrRecordNotFound (or the injected fault of the query, or the error h carried)
+		x.reuse = true
+		if h2.Error == nil {
+			panic("c04: First(-1) found a row")
+		}
+	default:
+		panic("bad fh kind " + n.Kind)
+	}
+	x.poisoned = true
+	x.opInTx = inTx
+	return x.body(h2, inTx, path, n.Body)
 }
 
 // runDv: user code derives a handle and keeps working through it; for the PROPERTY the derived handle is the same
